@@ -116,10 +116,10 @@ def r_set_pkg(s, r):
         td = r.types[k]
         fields = ['mkSF %s 0 %s' % (coq_str("ID"), coq_str('wire:"-"')), 'mkSF %s 0 %s' % (coq_str("hid"), coq_str('wire:"-"'))] + \
                  ["mkSF %s %d %s" % (coq_str(f["name"]), f["t"], coq_str(f["tag"])) for f in td["fields"]]
-        sps.append("mkSProv %d 1 %s %d %d %s %s" % (p["id"], coq_str(r.tn(k)), 2 * k, 2 * k + 1, coq_list(fields),
+        sps.append("mkSProv %d %d %s %d %d %s %s" % (p["id"], r.tpkg(k), coq_str(r.tn(k)), 2 * k, 2 * k + 1, coq_list(fields),
                                                    coq_list([coq_str(l) for l in p.get("_lits", [])])))
     vals = coq_list(["mkVal %d %d %s" % (v["id"], v["out"], coq_bool(v.get("ok", True))) for v in s["values"]])
-    flds = coq_list(["mkField %d %d %d %s %s" % (f["id"], f.get("pkg", 1), f["parent"], coq_str(f["name"]), synth.r_nats(f["outs"])) for f in s["fields"]])
+    flds = coq_list(["mkField %d %d %d %s %s" % (f["id"], r.tpkg(f["parent"] // 2), f["parent"], coq_str(f["name"]), synth.r_nats(f["outs"])) for f in s["fields"]])
     binds = coq_list(["mkBind %d %d %d" % (b["id"], b["iface"], b["conc"]) for b in s["bindings"]])
     return "(RSet %d %s %s %s %s %s %s)" % (s["id"], coq_list([r_set_pkg(i, r) for i in s["imports"]]), provs, coq_list(sps), vals, flds, binds)
 
@@ -130,16 +130,16 @@ def case_term(i, p, r, o):
     types = []
     for k in sorted(r.types):
         td = r.types[k]
-        types.append((2 * k, ("named", 1, r.tn(k), "ZNil" if td["kind"] == "iface" else "ZComposite")))
+        types.append((2 * k, ("named", r.tpkg(k), r.tn(k), "ZNil" if td["kind"] == "iface" else "ZComposite")))
         types.append((2 * k + 1, ("ptr", 2 * k)))
     scope = ["Inject", "Run"] + ["P%d" % pr["id"] for pr in r.provs.values() if pr["pkg"] == 0 and not pr["struct"]] + \
             ["S%d" % s["id"] for s in r.sets.values() if s["pkg"] == 0 and s["id"] != 0] + \
             [d[2:] if d.startswith("f:") else d for d in r.app_decls] + universe()
     env = "(mkEnv %s %s %s)" % (
-        coq_list(["(%s, %s)" % (coq_str(r.apppath), coq_str("app")), "(%s, %s)" % (coq_str(r.libpath), coq_str(r.libname))]),
+        coq_list(["(%s, %s)" % (coq_str(r.apppath), coq_str("app")), "(%s, %s)" % (coq_str(r.libpath), coq_str(r.libname)), "(%s, %s)" % (coq_str(r.lib2path), coq_str(r.lib2name))]),
         coq_list(["(%d, %s)" % (t, r_tydesc(d)) for t, d in types]),
         coq_list([coq_str(x) for x in scope]))
-    order = sorted([t for t, _ in types], key=lambda t: ("*" if t % 2 else "") + r.libpath + "." + r.tn(t // 2))
+    order = sorted([t for t, _ in types], key=lambda t: ("*" if t % 2 else "") + (r.libpath if r.tpkg(t // 2) == 1 else r.lib2path) + "." + r.tn(t // 2))
     argidx = p["given"].index(p["out"]) if p["out"] in p["given"] else 0
     inj = "(mkInj %s %s None %d %s %s %d)" % (
         coq_str("Inject"), coq_list(["(%s, %d)" % (coq_str(nm), t) for nm, t in zip(r.inj_param_names(), p["given"])]),
@@ -150,9 +150,9 @@ def case_term(i, p, r, o):
             t = v["out"]
             k = t // 2
             if r.types[k]["kind"] == "iface":
-                pieces = '[PPkg 1; PText %s]' % coq_str('NewImpl%d("val%d")' % (k, v["id"]))
+                pieces = '[PPkg %d; PText %s]' % (r.tpkg(k), coq_str('NewImpl%d("val%d")' % (k, v["id"])))
             else:
-                pieces = '[%sPPkg 1; PText %s]' % ('PText "&"%string; ' if t % 2 else "", coq_str('%s{ID: "val%d"}' % (r.tn(k), v["id"])))
+                pieces = '[%sPPkg %d; PText %s]' % ('PText "&"%string; ' if t % 2 else "", r.tpkg(k), coq_str('%s{ID: "val%d"}' % (r.tn(k), v["id"])))
             if v.get("paren"):
                 pieces = '[PText "("%string; ' + pieces[1:-1] + '; PText ")"%string]'
             vals.append("(mkVI %d %d %s)" % (v["id"], t, pieces))
